@@ -77,6 +77,9 @@ func ExploreSched(bound int, maxExecs int64, stop func() bool, body func(), afte
 	vsync.Chooser, vsync.OrderHook = nil, nil
 	// warm-up under the scheduler (default schedule): End joins every goroutine the body
 	// spawned, so nothing of it leaks into the explored executions
+	// tsan reports each racing pair once per process: a report raised during the warm-up (which
+	// runs the default schedule) is attributed to the first explored execution (same schedule)
+	warmBefore := RaceLogSize()
 	vsync.Script = nil
 	vsync.Begin()
 	func() {
@@ -84,6 +87,7 @@ func ExploreSched(bound int, maxExecs int64, stop func() bool, body func(), afte
 		body()
 	}()
 	vsync.End()
+	warmRaced := RaceLogSize() != warmBefore
 	type item struct{ pre []int }
 	stack := []item{{nil}}
 	for len(stack) > 0 {
@@ -111,7 +115,7 @@ func ExploreSched(bound int, maxExecs int64, stop func() bool, body func(), afte
 		}()
 		vsync.End()
 		rec := append([]vsync.SchedPoint{}, vsync.Rec...)
-		e := &SchedExec{Raced: RaceLogSize() != before, Deadlock: dead || vsync.Deadlock, Unfinished: vsync.Unfinished, ChildPanics: append([]string{}, vsync.ChildPanics...)}
+		e := &SchedExec{Raced: RaceLogSize() != before || (warmRaced && st.Execs == 0), Deadlock: dead || vsync.Deadlock, Unfinished: vsync.Unfinished, ChildPanics: append([]string{}, vsync.ChildPanics...)}
 		for _, p := range rec {
 			e.Script = append(e.Script, p.Chosen)
 		}
